@@ -20,10 +20,10 @@ RULE = ("all failure patterns over attempts (F=exception, T=timeout, S=success) 
         "trivial = N=0 with success")
 ASSUMPTIONS = ["Redis and RabbitMQ are wire-level fakes", "virtual time", "cron recurrence not exercised (croniter absent)"]
 EVAL_COUNTER = "chains_judged"
-REQUIRED = ["chains_judged", "retries_timed", "final_dead", "final_gone", "final_rescheduled", "forced_over_budget", "timezone_offset_runs", "waiting_retries_inspected_and_returned", "looks_before_a_months_long_backoff_is_over", "twin_chains_judged"]
+REQUIRED = ["chains_judged", "retries_timed", "final_dead", "final_gone", "final_rescheduled", "forced_over_budget", "timezone_offset_runs", "waiting_retries_inspected_and_returned", "looks_before_a_months_long_backoff_is_over", "twin_chains_judged", "chains_under_a_policy_with_its_own_parameter_name"]
 CASE_TIMEOUT = 150
 
-POLICIES = ("default", "default_rand", "zero", "linear", "lambda")
+POLICIES = ("default", "default_rand", "zero", "linear", "lambda", "positional", "other_name")
 
 
 def patterns(N):
@@ -50,6 +50,8 @@ def gen_cases(tier, seed):
                         # exponential policies make long virtual chains: fewer timeouts, shorter N
                         if N > 2:
                             continue
+                    if tier == "quick" and pol in ("positional", "other_name") and (kind != "mem" or N in (0, 3) or rec):
+                        continue
                     if tier == "quick" and kind != "mem" and (pol not in ("zero", "linear") or N == 2):
                         continue
                     if tier == "quick" and kind == "mem" and rec and pol in ("default_rand", "lambda"):
@@ -124,6 +126,14 @@ def make_policy(name, rnd):
         return default_retry_policy_factory(min_backoff=mn, max_backoff=mx, multiplier=mult, max_exponent=mexp), f"default({mn},{mx},{mult},{mexp})"
     if name == "zero":
         return (lambda retry_number=1: timedelta(0)), "zero"
+    if name == "positional":
+        # a user function whose parameter has a name of its own (the documented call is positional)
+        def backoff(attempt, /):
+            return timedelta(seconds=0.4 * attempt)
+
+        return backoff, "def backoff(attempt, /)"
+    if name == "other_name":
+        return (lambda n=1: timedelta(seconds=0.25 + 0.1 * n)), "lambda n"
     if name == "linear":
         return (lambda retry_number=1: timedelta(seconds=0.7 * retry_number)), "linear(0.7k)"
     return (lambda retry_number=1: timedelta(seconds=[0.3, 2.5, 0.05, 1.0][retry_number % 4], microseconds=retry_number)), "lambda"
@@ -339,6 +349,8 @@ async def scenario(loop, case, out, stats, fps, samples):
             ctx = f"{mode}/{case['policy']}" + ("/rec" if case["rec"] else "")
             fps.add(f"{kind}/{N}/{pat}/{case['policy']}/{int(case['rec'])}/{mode}")
             stats["chains_judged"] += 1
+            if case["policy"] in ("positional", "other_name"):
+                stats["chains_under_a_policy_with_its_own_parameter_name"] += 1
             # every scheduling of the job carries the budget it was enqueued with (a recurring job's next run gets N again)
             lost = [e for e in starts if e.get("retries_max") not in (None, N)]
             if lost:
